@@ -1,7 +1,8 @@
 (* Properties/C08.v — Applying a diff to the right document reconstructs the left one. *)
 From Coq Require Import List String Bool ZArith Arith.
 From YT Require Import Base.Str Base.KV Base.Sort Model.Doc Model.Dom Model.Builder Model.Diff Model.Apply
-  Model.Path Proofs.BuilderProofs Proofs.PathProofs Proofs.ApplyProofs Proofs.FrameProofs Proofs.ApplyLookupProofs Proofs.DiffNilProofs Proofs.ReconstructProofs Proofs.ReconstructKeyedProofs Proofs.ReconstructListsProofs.
+  Model.Path Proofs.BuilderProofs Proofs.PathProofs Proofs.ApplyProofs Proofs.FrameProofs Proofs.ApplyLookupProofs Proofs.DiffNilProofs Proofs.ReconstructProofs Proofs.ReconstructKeyedProofs Proofs.ReconstructListsProofs Proofs.RebuildExactProofs Proofs.ReconstructExactProofs.
+From Coq Require Import Permutation.
 Import ListNotations.
 Local Open Scope list_scope.
 
@@ -115,11 +116,39 @@ Theorem C08_prefix_sorts_first : forall tau rest,
 Proof. exact render_prefix_lt. Qed.
 Print Assumptions C08_prefix_sorts_first.
 
-(* Not proved (decided on every run by the correspondence: the whole document
-   Apply(R, Diff(L,R)) is compared with this model, and Flatten(Apply(R,Diff(L,R))) == Flatten(L)
-   is a Go-side oracle on the stated domain): the converse half — no leaf of R outside L survives
-   and no padding null remains, i.e. Flatten(Apply(R, Diff(L,R))) has no OTHER entries; this is where
-   "every list item contains a scalar" is needed. *)
+(* The converse half: after Apply(R, Diff(L,R)) there are NO OTHER leaves — no leaf of R outside L
+   survives, no padding null remains.  This is where "every list item of L contains a scalar" (eis)
+   is needed: a list item of L without any scalar is not re-added after the Delete of its list.
+   Invariant of the proof (ReconstructExactProofs): the accumulator is a partial rebuild of L
+   except below the positions whose Delete is still to come; an Add never lands below such a
+   position because the Delete's path, a proper prefix, sorts first. *)
+Theorem C08_reconstruct_exact : forall kl kr p v,
+  wf (Con kl) = true -> keys_safe (Con kl) = true -> wf (Con kr) = true -> keys_safe (Con kr) = true ->
+  compat_g (Con kl) (Con kr) -> eis (Con kl) = true ->
+  In (p, v) (flatten (apply (Con kr) (diff (Con kl) (Con kr)))) -> In (p, v) (flatten (Con kl)).
+Proof. exact reconstruct_exact. Qed.
+Print Assumptions C08_reconstruct_exact.
+
+(* Both halves together: Flatten(Apply(R, Diff(L,R))) is Flatten(L) — the same (path, value)
+   pairs, each exactly once — and the result is a well-formed document. *)
+Theorem C08_reconstruct_flatten : forall kl kr,
+  wf (Con kl) = true -> keys_safe (Con kl) = true -> wf (Con kr) = true -> keys_safe (Con kr) = true ->
+  compat_g (Con kl) (Con kr) -> eis (Con kl) = true ->
+  Permutation (flatten (apply (Con kr) (diff (Con kl) (Con kr)))) (flatten (Con kl)).
+Proof. exact reconstruct_flatten_perm. Qed.
+Print Assumptions C08_reconstruct_flatten.
+
+Theorem C08_reconstruct_positions : forall kl kr,
+  wf (Con kl) = true -> keys_safe (Con kl) = true -> wf (Con kr) = true -> keys_safe (Con kr) = true ->
+  compat_g (Con kl) (Con kr) -> eis (Con kl) = true ->
+  wf (apply (Con kr) (diff (Con kl) (Con kr))) = true /\
+  forall tau w, In (tau, w) (flatten_steps (apply (Con kr) (diff (Con kl) (Con kr)))) <->
+                In (tau, w) (flatten_steps (Con kl)).
+Proof. exact reconstruct_steps_exact. Qed.
+Print Assumptions C08_reconstruct_positions.
+
+(* Not proved: that the two flattened lists are equal AS LISTS (same order), which needs the
+   sortedness of Flatten's output; the Go-side oracle compares them as maps, as the property states. *)
 
 (* non-vacuity: the pair that was reconstructed wrongly on the pinned tree, and a list of lists *)
 Example C08_ex_keyed :
@@ -135,8 +164,8 @@ Example C08_ex_general :
                 ("m"%string, Lst [Lst [Leaf (SInt 1); Leaf (SInt 2)]; Lst [Leaf (SInt 3)]])] in
   let r := Con [("a"%string, Lst [Con [("z"%string, Leaf (SInt 1))]]); ("gone"%string, Leaf (SInt 0));
                 ("m"%string, Lst [Leaf (SInt 5)])] in
-  wf l = true /\ wf r = true /\ compat_g l r.
-Proof. split; [reflexivity|]. split; [reflexivity|cbn; tauto]. Qed.
+  wf l = true /\ wf r = true /\ compat_g l r /\ eis l = true /\ flatten (apply r (diff l r)) = flatten l.
+Proof. split; [reflexivity|]. split; [reflexivity|]. split; [cbn; tauto|]. split; [reflexivity|vm_compute; reflexivity]. Qed.
 
 Example C08_ex :
   let l := Con [("a"%string, Lst [Con [("x"%string, Leaf (SInt 1)); ("y"%string, Leaf (SInt 2))]]);
